@@ -102,34 +102,38 @@ func tamper(ps *seg.PathSegment, idx int) *seg.PathSegment {
 
 func runHiddenBubble(r *core.Run) {
 	p := newPool(r, 3+r.Choice("pool.shapes", 6), 3, false)
-	// group configurations
+	// the ASes that run a registry / hidden-segment server in this run
+	nS := 1 + r.Choice("servers", 3)
+	var serverIAs []addr.IA
+	for k := 0; k < nS; k++ {
+		ia := iaPool[(k+r.Choice("s.ia", len(iaPool)))%len(iaPool)]
+		if !has(serverIAs, ia) {
+			serverIAs = append(serverIAs, ia)
+		}
+	}
+	// group configurations; most groups name at least one of the simulated servers as registry
 	nG := 1 + r.Choice("groups", 4)
 	var groups []*refGroup
 	for g := 0; g < nG; g++ {
 		owner := iaPool[r.Choice("g.owner", len(iaPool))]
 		rg := &refGroup{id: hiddenpath.GroupID{OwnerAS: owner.AS(), Suffix: uint16(g + 1)}, owner: owner,
 			writers: subset(r, "g.writers", true), readers: subset(r, "g.readers", false), registries: subset(r, "g.registries", true)}
+		if r.Choice("g.regserver", 4) != 3 {
+			if ia := serverIAs[r.Choice("g.regwhich", len(serverIAs))]; !has(rg.registries, ia) {
+				rg.registries = append(rg.registries, ia)
+			}
+		}
 		groups = append(groups, rg)
 		r.Logf("group %v owner=%v writers=%v readers=%v registries=%v", rg.id, rg.owner, rg.writers, rg.readers, rg.registries)
 	}
 	unknownID := hiddenpath.GroupID{OwnerAS: iaPool[0].AS(), Suffix: 0x7777}
-	// servers
-	nS := 1 + r.Choice("servers", 3)
 	var servers []*hpServer
 	defer func() {
 		for _, s := range servers {
 			s.db.Close()
 		}
 	}()
-	for k := 0; k < nS; k++ {
-		ia := iaPool[(k+r.Choice("s.ia", len(iaPool)))%len(iaPool)]
-		dup := false
-		for _, s := range servers {
-			dup = dup || s.ia == ia
-		}
-		if dup {
-			continue
-		}
+	for _, ia := range serverIAs {
 		l := newLoc(true, "h")
 		b, err := psqlite.New(l.path, &db.SqliteConfig{InMemory: true, MaxOpenReadConns: 2})
 		if err != nil {
@@ -140,7 +144,7 @@ func runHiddenBubble(r *core.Run) {
 		cfg := map[hiddenpath.GroupID]*hiddenpath.Group{}
 		var names []string
 		for _, g := range groups {
-			if r.Choice("s.knows", 4) == 3 {
+			if r.Choice("s.knows", 5) == 4 {
 				continue // this server's configuration lacks the group
 			}
 			grp := &hiddenpath.Group{ID: g.id, Owner: g.owner, Writers: iaSet(g.writers), Readers: iaSet(g.readers),
@@ -174,6 +178,10 @@ func runHiddenBubble(r *core.Run) {
 		case op < 4: // registration
 			peer := peers[r.Choice("reg.peer", len(peers))]
 			gid, g := drawGroup("reg.group")
+			if g != nil && r.Choice("reg.plausible", 3) != 0 {
+				// a writer of the group registers (everything else stays as drawn)
+				peer = g.writers[r.Choice("reg.writer", len(g.writers))]
+			}
 			n := 1 + r.Choice("reg.n", 3)
 			var metas []*seg.Meta
 			var vers []*ver
@@ -216,7 +224,7 @@ func runHiddenBubble(r *core.Run) {
 			if reason == "ok" {
 				if err != nil {
 					r.Fail("c45-register-refused", "register-refused", "registration at %v by writer %v for group %v (%s) satisfies every condition but was refused: %v",
-						s.ia, peer, gid, strings.Join(desc, ","), err)
+						s.ia, peer, gid, strings.Join(desc, ","), errText(err))
 					break
 				}
 				accepted++
@@ -233,7 +241,7 @@ func runHiddenBubble(r *core.Run) {
 			v := p.pickVer(r)
 			t := typePool[r.Choice("pub.type", 3)]
 			if _, err := s.db.Insert(ctx, &seg.Meta{Segment: v.seg, Type: t}); err != nil {
-				r.Fail("c45-op-error", "op-error:Insert", "Insert failed: %v", err)
+				r.Fail("c45-op-error", "op-error:Insert", "Insert failed: %v", errText(err))
 				break
 			}
 			s.m.insert(v, t, []uint64{0})
@@ -241,10 +249,16 @@ func runHiddenBubble(r *core.Run) {
 		default: // request
 			peer := peers[r.Choice("req.peer", len(peers))]
 			n := 1 + r.Choice("req.n", 3)
+			plausible := r.Choice("req.plausible", 3) != 0
 			var ids []hiddenpath.GroupID
 			reason := "ok"
 			for k := 0; k < n; k++ {
 				gid, g := drawGroup("req.group")
+				if plausible && g != nil && k == 0 {
+					// some member of the first group asks
+					members := append(append(append([]addr.IA{g.owner}, g.writers...), g.readers...), g.registries...)
+					peer = members[r.Choice("req.member", len(members))]
+				}
 				ids = append(ids, gid)
 				if reason != "ok" {
 					continue
@@ -259,6 +273,9 @@ func runHiddenBubble(r *core.Run) {
 				}
 			}
 			dst := iaPool[r.Choice("req.dst", len(iaPool))]
+			if stored := core.SortedKeys(s.m.segs); plausible && len(stored) > 0 {
+				dst = s.m.segs[stored[r.Choice("req.dstseg", len(stored))]].v.shape.last()
+			}
 			res, err := s.auth.Segments(ctx, hiddenpath.SegmentRequest{GroupIDs: ids, DstIA: dst, Peer: peer})
 			r.Logf("#%d request at %v by %v groups %v dst %v: expect %s, err=%v n=%d", i, s.ia, peer, ids, dst, reason, err != nil, len(res))
 			r.Covered("hp.request:" + reason)
@@ -275,13 +292,13 @@ func runHiddenBubble(r *core.Run) {
 			if reason != "ok" {
 				if err == nil || len(res) > 0 {
 					r.Fail("c45-request-answered", "request-answered:"+reason, "request at %v by %v for groups %v dst %v was answered (err=%v, segments %v) although: %s",
-						s.ia, peer, ids, dst, err, got, reason)
+						s.ia, peer, ids, dst, errText(err), got, reason)
 				}
 				break
 			}
 			if err != nil {
 				r.Fail("c45-request-refused", "request-refused", "request at %v by member %v for groups %v dst %v satisfies every condition but was refused: %v",
-					s.ia, peer, ids, dst, err)
+					s.ia, peer, ids, dst, errText(err))
 				break
 			}
 			must := map[string]bool{}
@@ -323,7 +340,7 @@ func runHiddenBubble(r *core.Run) {
 func checkHiddenStore(r *core.Run, s *hpServer, p *pool, when string) {
 	res, err := s.db.GetAll(context.Background())
 	if err != nil {
-		r.Fail("c45-op-error", "op-error:GetAll", "GetAll failed: %v", err)
+		r.Fail("c45-op-error", "op-error:GetAll", "GetAll failed: %v", errText(err))
 		return
 	}
 	var got []string
